@@ -19,6 +19,16 @@
 //	VerifyHeader(cfg, header) error                  real (*ucon.Server).VerifyHeader(chain, header, seal=true)
 //	VerifySeal / VerifySideChain                     the two other entry points that reach verifyConsensusFieldMain
 //	(*Config).HonestHeader() (*types.Header, error)  proposal + all precommits, packed; checked to be accepted
+//	(*Config).SeatCounts(ri) / Quorum() / Sortition(...) / BlsSign(...) / VotePayload(hash, round, ri)
+//	NewConfigAt(name, version, round, stakes) / NewCertConfig(name, version)   other rounds; certificate rounds (HonestCerts)
+//	VerifyHeaderOn(cfg, chain, header) with an *Overlay of cfg.Chain   per-case look-back headers
+//
+// Config fields of interest: Members / Voters (entitled = online chamber with
+// stake) with all secret keys and Index (= SingleVote.VoterIdx), Round, LBSeed,
+// Total (online chamber stake), CP, Chain (usable as the ChainReader of a real
+// Server/Voter), Server (the verifier), Proposer, HonestRI.  Seat counts depend
+// on the fixed keys and seeds: read them with SeatCounts, never hard-code them.
+// In configuration "b" the whale alone weighs exactly the quorum.
 package c01
 
 import (
